@@ -110,16 +110,48 @@ func gh_secDeletes[K comparable](key K) real { panic("ghost") }
 func ext_internal_SecondaryCache_Set[K comparable, V any](sc any, key K, value V, cost int64, expire int64, item SecondaryCacheItem[K, V]) (err error) {
 	requires("identity", has(item.shard.hashmap, key) && item.shard.hashmap[key] == item.entry)
 	requires("locked", heldShardR())
+	// C15: what is written is the handed-off entry's own key, value, cost and deadline
+	requires("entry_content", key == item.entry.key && same(value, item.entry.value) && cost == item.entry.weight.Load() && expire == item.entry.expire.Load())
 	set(gh_secWrites(key), gh_secWrites(key)+1)
+	if err == nil {
+		set(gh_secWrote(item.entry), true)
+	} else {
+		set(gh_setFailures(), gh_setFailures()+1)
+	}
 	return
 }
+
+// ghost: a secondary-tier write of this entry's content succeeded (this goroutine)
+func gh_secWrote[K comparable, V any](e *Entry[K, V]) bool { panic("ghost") }
+
+// ghost: failed secondary-tier writes / errors passed to the error handler (this goroutine)
+func gh_setFailures() real { panic("ghost") }
+func gh_asyncErrs() real   { panic("ghost") }
 
 func ext_internal_SecondaryCache_Delete[K comparable](sc any, key K) (err error) {
 	set(gh_secDeletes(key), gh_secDeletes(key)+1)
 	return
 }
 
-func ext_internal_SecondaryCache_HandleAsyncError(sc any, err error) {}
+func ext_internal_SecondaryCache_HandleAsyncError(sc any, err error) {
+	set(gh_asyncErrs(), gh_asyncErrs()+1)
+}
+
+// the hybrid worker (one goroutine per worker; C14, C15)
+func (s *Store[K, V]) spec_processSecondary() {
+	requires("wf", sp_wfStore(s) && s.secondaryCache != nil)
+	requires("start", gh_asyncErrs() == gh_setFailures())
+}
+
+func (s *Store[K, V]) spec_processSecondary_loop1(item SecondaryCacheItem[K, V]) {
+	// C15: the worker takes an entry's map slot away only after it has written that entry to the secondary tier
+	invariant("written_before_removed", all(func(e *Entry[K, V]) bool { return imp(gh_owned(e) && !old(gh_owned(e)), gh_secWrote(e)) }))
+	// C15: every failed write is reported to the error handler
+	invariant("errors_reported", gh_asyncErrs() == gh_setFailures())
+	// C15 "the memory tier still honours MaxSize": an evicted entry (no longer tracked by the policy) has left the
+	// map when the worker is done with it, whatever the secondary tier answered
+	ensures("evicted_leaves_memory", imp(!item.shard.closed, !(has(item.shard.hashmap, item.entry.key) && item.shard.hashmap[item.entry.key] == item.entry)))
+}
 
 // C14: a Delete on a hybrid cache removes the key from memory and from the secondary tier in one critical
 // section of the shard write lock (so no concurrent promotion can resurrect it)
@@ -162,5 +194,38 @@ func (s *Store[K, V]) spec_Persist_loop1(idx_ int) {
 	invariant("held_so_far", all(func(j uint) bool { return imp(j < uint(idx_), heldR(s.shards[j].mu)) }))
 	invariant("some_held", imp(idx_ > 0, heldShardR()))
 	invariant("policy_held", heldPolicy())
-	invariant("rest_free", all(func(j uint) bool { return imp(j >= uint(idx_) && j < s.shardCount, !heldR(s.shards[j].mu) && !held(s.shards[j].mu)) }))
+	invariant("rest_free", all(func(j uint) bool {
+		return imp(j >= uint(idx_) && j < s.shardCount, !heldR(s.shards[j].mu) && !held(s.shards[j].mu))
+	}))
+}
+
+// ---- C15: promotion from the secondary tier -----------------------------------------------------------------------------
+
+// ghost: secondary-tier lookups made by this goroutine, and what the last one answered
+func gh_secGets() real       { panic("ghost") }
+func gh_secGetHit() bool     { panic("ghost") }
+func gh_secGetExpire() int64 { panic("ghost") }
+
+func ext_internal_SecondaryCache_Get[K comparable, V any](sc any, key K) (value V, cost int64, expire int64, ok bool, err error) {
+	set(gh_secGets(), gh_secGets()+1)
+	set(gh_secGetHit(), ok && err == nil)
+	set(gh_secGetExpire(), expire)
+	return
+}
+
+// errors.As reports false for a nil error (trusted)
+func ext_errors_As(err error, target any) (b bool) {
+	ensures("nil_is_nothing", imp(err == nil, !b))
+	return
+}
+
+func (s *Store[K, V]) spec_GetWithSecodary(key K) (v V, ok bool, err error) {
+	flag("may_panic") // a panic of the secondary tier's Get is passed on by the singleflight group
+	requires("wf", sp_wfStore(s) && s.secondaryCache != nil && sp_home(s, key).vgroup != nil)
+	// C15 "a later Get finds it there without reloading": when this call itself asked the secondary tier and the
+	// tier holds the key with a deadline that has not passed, the value is returned (and promoted) ...
+	ensures("unexpired_found", imp(gh_secGets() > old(gh_secGets()) && gh_secGetHit() && gh_secGetExpire() > clock.Gh_now(), ok && err == nil))
+	// ... "whether or not it has a TTL": deadline 0 means no TTL
+	ensures("ttl_less_found", imp(gh_secGets() > old(gh_secGets()) && gh_secGetHit() && gh_secGetExpire() == 0, ok && err == nil))
+	return
 }
